@@ -1,25 +1,46 @@
 """C04 — models: theorems (Props/C04.lean) + correspondence K-C04 (harness/c04.cpp vs
-Model/Models.lean through drv_c04): dense layers with every element-wise activation,
-two-layer concatenations, normalizer/softmax rows."""
+Model/Models.lean, Model/Models2.lean through drv_c04): dense layers with every element-wise activation,
+concatenations of any length, normalizer/softmax rows, Normalizer, Classifier, pooling, resize, convolution,
+RBF, kernel expansion, ensemble, CMAC."""
 import os, re
 from vlib import core
 
 TRUST = ("Lean 4.33 kernel; axioms at most propext/Classical.choice/Quot.sound (audited per run); "
-         "hand-written model Model/Models.lean tied to the C++ by the correspondence harness (differential, generator-bounded); ")
+         "hand-written models Model/Models.lean, Model/Models2.lean tied to the C++ by the correspondence harness (differential, generator-bounded); ")
 MANIFEST = dict(
-  text=("Theorems (Props/C04.lean): for dense layers with any element-wise activation, batch evaluation equals row-wise single "
-        "evaluation for every batch (exact arithmetic), parameterVector/setParameterVector round-trip with the reported length; over "
-        "the reals the weighted parameter and input derivatives of a dense layer are the partial derivatives of the "
-        "coefficient-weighted sum of outputs for every activation (tanh, logistic, fast sigmoid, rectifier away from 0, linear), "
-        "the softmax/normalizer rows satisfy their Jacobian-vector identities, and a generic chain rule: if two models satisfy the "
-        "derivative contract so does their concatenation (what ConcatenatedModel computes). Correspondence: exact comparison on "
-        "dyadic data for linear/rectifier, bit-for-bit outputs and 1e-12-toleranced gradients for tanh/logistic/fast-sigmoid/"
-        "softmax/normalizer, in-harness oracle for batch-vs-single, state-vs-stateless, combined-vs-separate derivative calls, "
-        "parameter round trip."),
-  note=TRUST + "PARTIAL: only LinearModel (all activations), NeuronLayer (element-wise, normalizer, softmax) and ConcatenatedModel chains (any length, optimised or frozen layers) are modelled; "
-       "convolution, pooling, resize, RBF, CMAC, Normalizer model, Classifier, KernelExpansion, Ensemble are not covered yet; "
-       "floating-point rounding is not modelled.",
-  technique="Lean 4 proofs (exact algebra over Rat, HasDerivAt/chain rule over Real) + exact / bit-exact differential correspondence with the C++ models",
+  text=("Theorems (Props/C04.lean, all for arbitrary shapes / batch sizes / parameter values). "
+        "(1) batch = row-wise single evaluation, exact arithmetic: dense layers with every element-wise activation, ConcatenatedModel chains of any "
+        "length and any layer kinds (row i of the output depends on row i of the input only, and equals the evaluation of the one-row batch), "
+        "Normalizer, Classifier<LinearModel> (label of row i = decision on the single evaluation), max pooling, linear gathers (ResizeLayer), RBFLayer, "
+        "KernelExpansion over any kernel function, weighted-mean Ensemble over members that satisfy batch = single, CMAC. "
+        "(2) parameterVector/setParameterVector round trip with the reported count: dense layer, chain (optimised and frozen layers), Normalizer, "
+        "KernelExpansion, RBFLayer (over the reals, log/exp encoding of the widths), CMAC. "
+        "(3) derivatives over the reals (HasDerivAt of the coefficient-weighted output sum): dense layer weight/offset/input derivatives for every "
+        "activation (rectifier/fast sigmoid away from the kink); softmax and normalizer Jacobian-vector products; "
+        "the executable backward pass Chain.backward of a ConcatenatedModel of any length made of dense, element-wise neuron, softmax and normalizer "
+        "layers, optimised or frozen: its input-coefficient matrix is the input derivative and the entry of its gradient vector at the position of "
+        "W[k][j] / b[k] of any optimised dense layer is the partial derivative w.r.t. that parameter (induction over the chain, "
+        "chain_input/weight/offset_derivative_correct, chain_curve_hasDerivAt), next to the abstract Frechet chain rule concat_chain_rule; "
+        "max-pooling input derivative (no tie in the patch of the pixel); input derivative of any linear gather (ResizeLayer taps); RBFLayer centre "
+        "and log-width gradients at their positions in the gradient vector; CMAC parameter derivative. "
+        "(4) Classifier: argmax returns an index of a maximal entry and the first such (and is characterised by that), with bias the first maximum of "
+        "z + bias, a single output is thresholded at 0; max pooling returns the maximum of its patch, attained at the pixel the derivative selects; "
+        "the votes of a voting ensemble sum to 1. "
+        "Correspondence (harness/c04.cpp on the real classes vs the same Lean definitions, corpus first): exact comparison on dyadic data for "
+        "linear/rectifier layers and chains, Normalizer, Classifier, arg_max, PoolingLayer, KernelExpansion with LinearKernel, CMACMap, Conv2DModel "
+        "(linear/rectifier, both paddings, incl. both derivatives); bit-for-bit outputs for tanh/logistic/fast-sigmoid/softmax/normalizer layers, "
+        "ResizeLayer (spline taps incl. derivative), Ensemble (mean and vote); 1e-12 relative tolerance for gradient fields behind BLAS and for "
+        "RBFLayer / Gaussian KernelExpansion / Conv2DModel(tanh, logistic) outputs. In-harness oracle on the real code: batch rows == single "
+        "evaluation, one-row batches, state vs stateless, combined vs separate derivative calls, derivative results independent of the previous "
+        "content of the result object, parameter round trip and count, central finite differences for every advertised derivative."),
+  note=TRUST + "PARTIAL. Proved: the items (1)-(4) above about the executable models. Only exercised by the correspondence (no theorem): "
+       "Conv2DModel derivatives (model = defining sums; batch = single and the packing are definitional), the spline taps of ResizeLayer (the derivative "
+       "theorem holds for arbitrary taps), voting ensembles' batch = single, KernelExpansion with the Gaussian kernel (theorem is for an arbitrary kernel "
+       "function), CMAC tile index arithmetic (theorem is for an arbitrary index function). Not modelled: sparse inputs, DropoutLayer (random), "
+       "OpenCL back ends, Padding::RepeatBorder, floating-point rounding. Findings on the real code (modelled as repaired, inputs in corpus/C04, "
+       "findings_proposed/C04.md): F-C04-1 Classifier single evaluation ignores the bias, F-C04-2 PoolingLayer input derivative accumulates into "
+       "the result object, F-C04-3 voting Ensemble of single-output classifiers writes out of bounds.",
+  technique="Lean 4 proofs (exact algebra over Rat, HasDerivAt/chain rule over Real, induction over the layer chain) + exact / bit-exact differential correspondence with the C++ models",
   design="§6 C04")
 FINISH = dict(level="proof",
               rule="cases = (layer kind, activation(s), shapes, dyadic parameters/inputs/coefficients); distinct = distinct op text; "
@@ -151,6 +172,17 @@ def gen_ensemble(r, kind, single_output_ok):
     return f"ensemble {kind} {M} {nIn} {nOut} {hb} {B} | {ws} | {vec(r, M * np_, -2, 2, 1)} | {vec(r, B * nIn, -2, 2, 1)}"
 
 
+def gen_conv(r, exact, probe):
+    """Conv2DModel: tiny images, 1-2 channels, 1-2 filters, both paddings"""
+    act = r.choice(EXACT_ACTS if exact else ["tanh", "logistic"])
+    h = r.range(1, 4); w = r.range(1, 4); c = r.range(1, 2); nf = r.range(1, 2); fh = r.range(1, min(h, 3)); fw = r.range(1, min(w, 3))
+    valid = r.below(2); B = r.choice([1, 2, 3])
+    oh = h - fh + 1 + (0 if valid else fh - 1); ow = w - fw + 1 + (0 if valid else fw - 1)
+    npar = nf * fh * fw * c + nf
+    return (f"conv {act} {valid} {h} {w} {c} {nf} {fh} {fw} {B} {1 if probe else 0} | {vec(r, npar, -2, 2, 1)} | {vec(r, B * h * w * c, -2, 2, 1)} | "
+            f"{vec(r, B * oh * ow * nf, -2, 2, 1)}")
+
+
 def gen_cmac(r):
     nIn = r.range(1, 2); nOut = r.range(1, 2); tilings = r.choice([1, 2, 4]); tiles = r.choice([2, 3, 5]); B = r.choice([1, 2, 3])
     lo, up = r.choice([(0, 1), (-1, 1), (0, 2), (-2, 2)])
@@ -164,6 +196,7 @@ FINDINGS = {
     "F-C04-1": "classifier-single-eval-ignores-bias",
     "F-C04-2": "pooling-derivative-accumulates",
     "F-C04-3": "ensemble-vote-single-output-overflow",
+    "F-C04-4": "conv2d-input-derivative-filter-layout",
 }
 
 
@@ -222,25 +255,36 @@ def _finding_key(ops, res):
         return "F-C04-2"
     if hd[:2] == ["ensemble", "vote"] and len(hd) == 7 and hd[4] == "1" and res.crash:
         return "F-C04-3"
+    if hd[:1] == ["conv"] and len(hd) == 11 and hd[10] == "1" and "input-derivative-differs-from-finite-differences" in tags:
+        return "F-C04-4"
     return None
 
 
+_TWO_TOKEN_KINDS = ("dense", "concat", "rowact", "ensemble", "kexp", "conv")
+
+
+def _op_kind(o):
+    t = o.split()
+    return " ".join(t[:2]) if t[0] in _TWO_TOKEN_KINDS else t[0]
+
+
 def classify(ops, res):
-    kinds = sorted({(o.split()[0] if o.startswith("chain") else " ".join(o.split()[:2])) for o in ops if not o.startswith("mode")})
+    """key = <failure class>:<op kind>[:<oracle tag>]; failures are grouped (and reported once) per class and op kind"""
+    kinds = "+".join(sorted({_op_kind(o) for o in ops if not o.startswith("mode")}))
     fid = _finding_key(ops, res)
     if fid:
         return f"{fid}:{FINDINGS[fid]}", f"{fid} ({FINDINGS[fid]}) on {ops}"
     if res.crash:
-        return f"crash:{'+'.join(kinds)}", f"harness aborted on {ops}"
+        return f"crash:{kinds}", f"harness aborted on {ops}"
     if res.oracle:
         m = re.search(r"!oracle (\S+)", res.oracle[0])
-        return f"oracle:{m.group(1)}:{'+'.join(kinds)}", f"property oracle failed ({m.group(1)}) on {ops}"
-    return f"mismatch:{'+'.join(kinds)}", f"model and implementation disagree at line {res.diff_at} on {ops}"
+        return f"oracle:{kinds}:{m.group(1)}", f"property oracle failed ({m.group(1)}) on {ops}"
+    return f"mismatch:{kinds}", f"model and implementation disagree at line {res.diff_at} on {ops}"
 
 
 def run(ctx):
     ctx.trusted += ["correspondence harness harness/c04.cpp + generator checks/c04.py",
-                    "hand-written model Model/Models.lean (LinearModel.h, NeuronLayers.h, ConcatenatedModel.h are modelled, not translated)",
+                    "hand-written models Model/Models.lean, Model/Models2.lean (the model headers / sources are modelled, not translated)",
                     "Float instance = IEEE binary64 with the platform libm (same tanh/exp as the C++)"]
     ctx.assumptions += ["exact arithmetic in the theorems; rounding enters only through the correspondence",
                         "gradient fields in float mode are compared with relative tolerance 1e-12 (BLAS/FMA summation order)"]
@@ -257,35 +301,37 @@ def run(ctx):
     corpus = load_corpus()
     ctx.cov["corpus_cases"] = len(corpus)
     for fn, fid, ops in corpus:
-        n = core.correspond(ctx, f"K-C04[corpus:{fn}]", [ops], [exe], [drv], classify, cmp=cmp_tol, env=ENV)
+        n = core.correspond(ctx, f"K-C04[corpus:{fn}]", [ops], [exe], [drv], classify, cmp=cmp_tol, env=ENV, max_report=8)
         if n and fid:
             present.add(fid)
     ctx.cov["findings_present"] = sorted(present)
     r = ctx.rng.fork("c04")
     per = 200 if ctx.quick else 2000
     half = per // 2
-    p1, p2, p3 = "F-C04-1" not in present, "F-C04-2" not in present, "F-C04-3" not in present
+    p1, p2, p3, p4 = ("F-C04-1" not in present, "F-C04-2" not in present, "F-C04-3" not in present, "F-C04-4" not in present)
     exact_cases = [["mode rat", gen_dense(r, True)] for _ in range(per)] + [["mode rat", gen_concat(r, True)] for _ in range(per)] + \
                   [["mode rat", gen_chain(r, True)] for _ in range(per)] + \
                   [["mode rat", gen_normalizer(r)] for _ in range(half)] + [["mode rat", gen_classifier(r, p1)] for _ in range(per)] + \
                   [["mode rat", gen_argmax(r)] for _ in range(half)] + [["mode rat", gen_pool(r, p2)] for _ in range(per)] + \
-                  [["mode rat", gen_kexp(r, True)] for _ in range(half)] + [["mode rat", gen_cmac(r)] for _ in range(half)]
+                  [["mode rat", gen_kexp(r, True)] for _ in range(half)] + [["mode rat", gen_cmac(r)] for _ in range(half)] + \
+                  [["mode rat", gen_conv(r, True, p4)] for _ in range(half)]
     float_cases = [["mode float", gen_dense(r, False)] for _ in range(per)] + [["mode float", gen_concat(r, False)] for _ in range(per)] + \
                   [["mode float", gen_rowact(r)] for _ in range(per)] + [["mode float", gen_chain(r, False)] for _ in range(2 * per)] + \
                   [["mode float", gen_resize(r)] for _ in range(half)] + [["mode float", gen_rbf(r)] for _ in range(per)] + \
                   [["mode float", gen_kexp(r, False)] for _ in range(half)] + \
-                  [["mode float", gen_ensemble(r, "mean", True)] for _ in range(half)] + [["mode float", gen_ensemble(r, "vote", p3)] for _ in range(half)]
+                  [["mode float", gen_ensemble(r, "mean", True)] for _ in range(half)] + [["mode float", gen_ensemble(r, "vote", p3)] for _ in range(half)] + \
+                  [["mode float", gen_conv(r, False, p4)] for _ in range(half)]
     for c in exact_cases + float_cases:
         ctx.hist("op_kinds", c[0].split()[1] + ":" + " ".join(c[1].split()[:2]))
     ctx.cov["evaluations"] = len(exact_cases) + len(float_cases)
     ctx.cov["distinct_nontrivial"] = len({c[1] for c in exact_cases + float_cases if _batch_size(c[1]) >= 2})
     ctx.sample({"ops": exact_cases[0]}); ctx.sample({"ops": float_cases[-1]})
-    core.correspond(ctx, "K-C04[exact]", exact_cases, [exe], [drv], classify, env=ENV)
-    core.correspond(ctx, "K-C04[float]", float_cases, [exe], [drv], classify, cmp=cmp_tol, env=ENV)
+    core.correspond(ctx, "K-C04[exact]", exact_cases, [exe], [drv], classify, env=ENV, max_report=8)
+    core.correspond(ctx, "K-C04[float]", float_cases, [exe], [drv], classify, cmp=cmp_tol, env=ENV, max_report=8)
 
 
 _B_POS = {"dense": 5, "concat": 8, "chain": 1, "rowact": 3, "normalizer": 3, "classifier": 5, "pool": 6, "resize": 6, "rbf": 5,
-          "kexp": 8, "ensemble": 6, "cmac": 5}
+          "kexp": 8, "ensemble": 6, "cmac": 5, "conv": 9}
 
 
 def _batch_size(op):
